@@ -5,9 +5,10 @@ open Lean Pywbem.Proto Pywbem.Model.Listener
 
   {"op":"run",  "cfg":CFG, "labels":[L,…]}
   {"op":"walk", "cfg":CFG, "seed":int, "maxlen":int, "perSender":int, "starts":int, "sticky":0..100}
+  {"op":"reg",  "regs":[callback id,…]}   -> {"registered":[…]}   (add_callback sequence -> self._callbacks)
   {"op":"enum", "cfg":CFG, "perSender":int, "starts":int, "pb":int, "limit":int, "skip":int}
-  CFG = {"proto":"fixed"|"old","maxQ":int,"ncb":int,"n":int}
-  L   = "start" | "stop" | "main" | "cb" | "cb!" | "s<j>"
+  CFG = {"proto":"fixed"|"old","maxQ":int,"ncb":int,"n":int,"http":bool (default true),"https":bool (default false)}
+  L   = "start" | "stop" | "main" | "cb" | "cb!" | "s<j>" | "t<j>" (sender j sends its next request to the HTTPS port)
 
   run/walk answer {"labels":[…],"pcs":[pcvector after each step],"final":{…}} or {"stuck":i,"label":L}
   (walks are completed by a round-robin phase that ends with the listener stopped).
@@ -17,17 +18,19 @@ open Lean Pywbem.Proto Pywbem.Model.Listener
 
 def labelStr : Label → String
   | .start => "start" | .stop => "stop" | .main => "main"
-  | .cb false => "cb" | .cb true => "cb!" | .snd j => s!"s{j}"
+  | .cb false => "cb" | .cb true => "cb!" | .snd j => s!"s{j}" | .sndTls j => s!"t{j}"
 
 def parseLabel (s : String) : Option Label :=
   match s with
   | "start" => some .start | "stop" => some .stop | "main" => some .main
   | "cb" => some (.cb false) | "cb!" => some (.cb true)
-  | _ => if s.startsWith "s" then (s.drop 1).toNat?.map Label.snd else none
+  | _ => if s.startsWith "s" then (s.drop 1).toNat?.map Label.snd
+         else if s.startsWith "t" then (s.drop 1).toNat?.map Label.sndTls else none
 
 def mainStr : MainPc → String
-  | .idle => "idle" | .sMkq => "mkq" | .sThr => "thr_start" | .sSrv => "mkserver"
-  | .tShutdown => "shutdown" | .tClose => "server_close" | .tPoll => "empty"
+  | .idle => "idle" | .sMkq => "mkq" | .sThr => "thr_start" | .sSrv => "mkserver" | .sSrv2 => "mkserver2"
+  | .tShutdown => "shutdown" | .tClose => "server_close" | .tShutdown2 => "shutdown2" | .tClose2 => "server_close2"
+  | .tPoll => "empty"
   | .tSetEv => "setev" | .tJoin => "join"
 
 def cbStr : CbPc → String
@@ -39,7 +42,7 @@ def hStr : HPc → String
 
 def pcVector (s : Sys) : String :=
   mainStr s.main ++ "|" ++ cbStr s.cb ++ "|" ++ ",".intercalate (s.senders.map (fun sd => hStr sd.pc))
-    ++ "|" ++ toString s.queue.length
+    ++ "|" ++ toString s.queue.length ++ (if s.qfull then "F" else "")
 
 def indJson (x : Ind) : Json := Json.arr #[(x.1 : Nat), (x.2 : Nat)]
 def indsJson (l : List Ind) : Json := Json.arr (l.map indJson).toArray
@@ -50,13 +53,16 @@ def finalJson (s : Sys) : Json := Json.mkObj [
   ("ignored", indsJson s.ignored), ("queue", indsJson s.queue),
   ("errs", Json.arr (s.errs.map (fun e => Json.str e.name)).toArray),
   ("qref", s.qref), ("thrRef", s.thrRef), ("srv", s.srv), ("accepting", s.accepting), ("up", s.up),
+  ("srv2", s.srv2), ("accepting2", s.accepting2), ("qfull", s.qfull),
+  ("fullLog", Json.arr (s.fullLog.map (fun (b : Bool) => Json.bool b)).toArray),
   ("main", mainStr s.main), ("cb", cbStr s.cb),
   ("nexts", Json.arr (s.senders.map (fun sd => (sd.next : Json))).toArray)]
 
 def parseCfg (j : Json) : Cfg × Nat :=
   let c := getField j "cfg"
   ({ proto := if getStr c "proto" == some "old" then .old else .fixed,
-     maxQ := (getNat c "maxQ").getD 0, ncb := (getNat c "ncb").getD 1 }, (getNat c "n").getD 1)
+     maxQ := (getNat c "maxQ").getD 0, ncb := (getNat c "ncb").getD 1,
+     http := (getBool c "http").getD true, https := (getBool c "https").getD false }, (getNat c "n").getD 1)
 
 /-- run labels, collecting the pc vector after every step -/
 def runCollect (c : Cfg) : List Label → Sys → Nat → List String → Except (Nat × Label) (Sys × List String)
@@ -81,7 +87,7 @@ inductive Tid where
   deriving DecidableEq, Repr
 
 def tidOf : Label → Tid
-  | .start => .main | .stop => .main | .main => .main | .cb _ => .cb | .snd j => .snd j
+  | .start => .main | .stop => .main | .main => .main | .cb _ => .cb | .snd j => .snd j | .sndTls j => .snd j
 
 structure Budget where
   perSender : Nat
@@ -96,10 +102,12 @@ def candidates (c : Cfg) (b : Budget) (s : Sys) (sending : Bool) : List Label :=
       (if s.up = false ∧ b.starts > 0 then [Label.start] else []) ++ (if s.up || b.extra > 0 then [Label.stop] else [])
     else [Label.main]
   let cbL : List Label := [Label.cb false]
-  let sndL : List Label := (List.range s.senders.length).filterMap (fun j =>
+  let sndL : List Label := (List.range s.senders.length).flatMap (fun j =>
     match s.senders[j]? with
-    | some sd => if sd.pc != .idle || (sending && sd.next < b.perSender) then some (Label.snd j) else none
-    | none => none)
+    | some sd =>
+      if sd.pc != .idle then [Label.snd j]
+      else if sending && sd.next < b.perSender then [Label.snd j, Label.sndTls j] else []
+    | none => [])
   (mainL ++ cbL ++ sndL).filter (fun l =>
     match step c l s with
     | some s' => s' != s || l == .stop
@@ -205,6 +213,9 @@ def handle (j : Json) : Json :=
     | some ls => answerRun c n ls
   | some "walk" => answerWalk j
   | some "enum" => answerEnum j
+  | some "reg" =>
+    let regs := (getArr j "regs").filterMap jsonToNat?
+    Json.mkObj [("registered", Json.arr ((registered regs).map (fun (n : Nat) => (n : Json))).toArray)]
   | _ => Json.mkObj [("bad", "op")]
 
 def main : IO Unit := runDriver handle
